@@ -184,7 +184,7 @@ def run(ctx):
         b = drive.run_model(all_reqs)
         for (start, ln) in bounds:
             for i in range(start, start + ln):
-                if drive.norm(a[i]) != drive.norm(b[i]):
+                if not drive.reply_eq(a[i], b[i]):
                     disagreements.append({"history": all_reqs[start: i + 1], "impl": a[i], "model": b[i]})
                     break
             if len(disagreements) >= 10:
